@@ -79,6 +79,7 @@ func (in *Interp) spawn(body func()) {
 	in.mainThread()
 	t := &thread{id: len(in.threads), resume: make(chan struct{}, 1)}
 	in.threads = append(in.threads, t)
+	in.hbSpawn(t.id)
 	ss := in.sched()
 	go func() {
 		<-t.resume
@@ -96,6 +97,7 @@ func (in *Interp) spawn(body func()) {
 				in.threads[0].resume <- struct{}{}
 				return
 			}
+			in.hbRelease(threadExit{t.id})
 			in.switchFromDone()
 		}()
 		if ss.dead {
@@ -278,6 +280,11 @@ func (in *Interp) waitAll() {
 		}
 		return true
 	}, "waitAll")
+	for _, t := range in.threads {
+		if t != me {
+			in.hbAcquire(threadExit{t.id})
+		}
+	}
 }
 
 // killThreads ends all parked goroutines of this world.
@@ -311,21 +318,25 @@ func (in *Interp) mutexOp(p *Value, op string) {
 		in.schedPoint("Lock")
 		in.block(func() bool { return !m.locked && m.readers == 0 }, "Mutex.Lock")
 		m.locked = true
+		in.hbAcquire(p)
 	case "Unlock":
 		if !m.locked {
 			in.goPanicStr("sync: unlock of unlocked mutex")
 		}
 		m.locked = false
+		in.hbRelease(p)
 		in.schedPoint("Unlock")
 	case "RLock":
 		in.schedPoint("RLock")
 		in.block(func() bool { return !m.locked }, "RWMutex.RLock")
 		m.readers++
+		in.hbAcquire(p)
 	case "RUnlock":
 		if m.readers == 0 {
 			in.goPanicStr("sync: RUnlock of unlocked RWMutex")
 		}
 		m.readers--
+		in.hbRelease(p)
 		in.schedPoint("RUnlock")
 	case "TryLock":
 		panic("TryLock handled by caller")
@@ -351,6 +362,7 @@ func (fr *frame) chanSend(chv Value, v Value) {
 		in.goPanicStr("send on closed channel")
 	}
 	ch.buf = append(ch.buf, v)
+	in.hbRelease(ch)
 	in.schedPoint("send")
 }
 
@@ -362,6 +374,7 @@ func (fr *frame) chanRecv(chv Value, commaOk bool, t types.Type) Value {
 	}
 	in.schedPoint("recv")
 	in.block(func() bool { return len(ch.buf) > 0 || ch.closed }, "chan receive")
+	in.hbAcquire(ch)
 	var et types.Type
 	if commaOk {
 		et = t.(*types.Tuple).At(0).Type()
@@ -432,6 +445,7 @@ func (fr *frame) doSelect(x *ssa.Select) Value {
 		et := st.Chan.Type().Underlying().(*types.Chan).Elem()
 		if i == k {
 			ch := fr.get(st.Chan).(*chanV)
+			in.hbAcquire(ch)
 			if len(ch.buf) > 0 {
 				res = append(res, ch.buf[0])
 				ch.buf = ch.buf[1:]
